@@ -65,7 +65,22 @@ def floors(tier):
             "nonzero_charge": 150 * k, "rectangular_sectors": 300 * k, "complex_operands": 250 * k,
             "nU_false": 80 * k, "sU_minus": 200 * k, "negative_axis_args": 150 * k, "axis_not_default": 300 * k,
             "fix_signs_columns": 200 * k, "designed_spectrum": 150 * k, "compute_uv_false": 30 * k, "eig_biorthonormal_checked": 50 * k, "eig_nonnormal_scaled_inputs": 20 * k, "eig_directed_ill_conditioned": 1, "sides_fused_differently": 60 * k, "sides_fused_differently:meta": 20 * k, "sides_fused_differently:hard+meta": 2 * k,
-            "which:LM": 30 * k, "which:SM": 30 * k, "which:LR": 30 * k, "which:SR": 30 * k}
+            "which:LM": 30 * k, "which:SM": 30 * k, "which:LR": 30 * k, "which:SR": 30 * k, **reach_floors(k)}
+
+
+def reach_floors(k):
+    """Generic input classes, per decomposition: pure-default calls, extreme scales, pending 3-cycles (also with identical leg
+    structures), negative axis arguments at every position down to -ndim and on factors that carry fused legs."""
+    out = {"scaled_operands": 60 * k}
+    for op in ("svd", "qr", "eigh", "eig"):
+        out[f"pure_defaults:{op}"] = 4 * k
+        out[f"lazy_3cycle:{op}"] = 20 * k
+        out[f"lazy_3cycle_identical_legs:{op}"] = 2 * k
+        out[f"negaxis_full_range:{op}"] = 15 * k
+        out[f"negaxis_fused_factor:{op}"] = 10 * k
+        for pos, n in ((-1, 15), (-2, 15), (-3, 5)):
+            out[f"negaxis:{op}:{pos}"] = n * k
+    return out
 
 
 # ------------------------------------------------------------------ environment
@@ -75,13 +90,19 @@ class Env:
         self.ctx, self.rng, self.nprng, self.sym = ctx, ctx.rng(idx), ctx.nprng(idx), sym
         self.cfg = D.make_cfg(sym, False)
         self.thorough = ctx.tier == "thorough"
+        self.uniform_legs = False
 
     def legs(self, rank):
         small = rank >= 5
+        if self.rng.random() < 0.15:
+            # identical sector structure on every leg (signatures free): a wrongly resolved leg permutation stays shape-compatible
+            l0 = D.gen_leg(self.rng, self.sym, nsec=(1, 2) if small else (1, 3), dmax=2 if small else 3)
+            self.uniform_legs = True
+            return [D.HLeg(self.sym, self.rng.choice((1, -1)), l0.sectors) for _ in range(rank)]
         return [D.gen_leg(self.rng, self.sym, nsec=(1, 2) if small else (1, 3), dmax=2 if small else 3) for _ in range(rank)]
 
-    def tensor(self):
-        rank = self.rng.choice((2, 3, 3, 4, 4, 5) if self.thorough else (2, 3, 3, 4))
+    def tensor(self, rank=None):
+        rank = rank or self.rng.choice((2, 3, 3, 4, 4, 5) if self.thorough else (2, 3, 3, 4))
         legs = self.legs(rank)
         nmode = self.rng.choice(("fit",) * 7 + ("zero", "zero", "any"))
         return D.gen_tensor(self.rng, self.nprng, self.sym, legs=legs, density=self.rng.choice((1.0, 1.0, 0.7, 0.5)), nmode=nmode)
@@ -104,21 +125,29 @@ class Env:
         if not ht.blocks:
             c.count("empty_operands")
 
-    def split_operand(self, p_designed=0.25):
+    def split_operand(self, p_designed=0.25, rank=None, split=None, **okw):
         """Tensor, operand (lazy / fused) and ordered bipartition; with probability p_designed the singular values of every
         sector of that bipartition are replaced by a designed set (exact-to-rounding degeneracies, zeros, all equal)."""
         import random
         rng = self.rng
-        ht = self.tensor()
+        ht = self.tensor(rank)
         state = rng.getstate()
-        operand = self.operand(ht)
-        left, right = F.bipartition(rng, operand.nlegs)
+        operand = self.operand(ht, **okw)
+        left, right = F.bipartition(rng, operand.nlegs) if split is None else split
+        rebuilt = False
         if ht.blocks and rng.random() < p_designed:
             ht = F.redesign_svd(rng, ht, F.flat_axes(operand, left), F.flat_axes(operand, right))
+            rebuilt = True
+            self.ctx.count("designed_spectrum")
+        c = F.draw_scale(rng)
+        if c != 1.0 and ht.blocks:
+            ht = F.scaled(ht, c)            # extreme but legal overall scale: every clause is relative to ||a||
+            rebuilt = True
+            self.ctx.count("scaled_operands")
+        if rebuilt:
             r2 = random.Random()
             r2.setstate(state)
-            operand = self.operand(ht, rng=r2)          # the same lazy state / fusion recipe on the new values
-            self.ctx.count("designed_spectrum")
+            operand = self.operand(ht, rng=r2, **okw)          # the same lazy state / fusion recipe on the new values
         self.count_operand(ht, operand)
         return ht, operand, left, right
 
@@ -128,6 +157,21 @@ class Env:
                 self.ctx.count("negative_axis_args")
             if ax != default:
                 self.ctx.count("axis_not_default")
+
+    def count_call(self, op, operand, factors):
+        """Reach counters per decomposition: pending 3-cycles on the operand; negative axis arguments per position on the factors."""
+        c = self.ctx
+        if F.pending_noninvolutive(operand.y):
+            c.count(f"lazy_3cycle:{op}")
+            if self.uniform_legs:
+                c.count(f"lazy_3cycle_identical_legs:{op}")
+        for x, ax in factors:
+            if ax < 0:
+                c.count(f"negaxis:{op}:{max(ax, -4)}")
+                if ax == -x.ndim:
+                    c.count(f"negaxis_full_range:{op}")
+                if any(l.is_fused() for l in x.get_legs()):
+                    c.count(f"negaxis_fused_factor:{op}")
 
     def sample(self, op, ht, operand, params):
         return {"op": op, "sym": self.sym, "params": params, "tensor": ht.desc(), "operand": operand.info,
@@ -260,7 +304,7 @@ def compare_spectra(ctx, op, S, sectors, kind, which, anorm, w):
         else:
             if kind == "eigh" and lib.dtype.kind != "f":
                 ctx.violation(f"{op}:S-not-real", f"{op}: eigenvalues of a Hermitian tensor have dtype {lib.dtype}", w)
-            if not order_ok(lib, which, anorm):
+            if which is not None and not order_ok(lib, which, anorm):
                 ctx.violation(f"{op}:S-order:{which}", f"{op}: eigenvalues of sector {t} are not ordered as which={which} documents: "
                               f"{np.asarray(lib).tolist()[:8]}", w)
                 ok = False
@@ -370,9 +414,15 @@ def check_usv(E, op, ht, operand, left, right, U, S, V, sU, nU, Uaxis, Vaxis, ki
 def op_svd(E):
     import yastn
     ctx, rng = E.ctx, E.rng
-    ht, operand, left, right = E.split_operand()
+    variant = rng.choice(("full", "full", "full", "fix_signs", "fix_signs", "compute_uv_false", "defaults", "pure_defaults"))
+    if variant == "pure_defaults":
+        # svd(a) on a matrix: axes, sU, nU, Uaxis, Vaxis all omitted
+        ht, operand, left, right = E.split_operand(rank=2, split=((0,), (1,)), fusion="none")
+        variant = "defaults"
+        ctx.count("pure_defaults:svd")
+    else:
+        ht, operand, left, right = E.split_operand()
     axes = F.axes_arg(rng, left, right)
-    variant = rng.choice(("full", "full", "full", "fix_signs", "fix_signs", "compute_uv_false", "defaults"))
     sU, nU = rng.choice((1, -1)), rng.choice((True, False))
     Uaxis, Vaxis = F.rand_axis(rng, len(left) + 1), F.rand_axis(rng, len(right) + 1)
     if rng.random() < 0.15:
@@ -393,6 +443,7 @@ def op_svd(E):
     ctx.count("sU_minus", int(sU == -1))
     fn = (lambda **k: operand.y.svd(**k)) if rng.random() < 0.3 else (lambda **k: yastn.svd(operand.y, **k))
     U, S, V = fn(**kw)
+    E.count_call("svd", operand, ((U, Uaxis), (V, Vaxis)))
     ok = check_usv(E, "svd", ht, operand, left, right, U, S, V, sU, nU, Uaxis, Vaxis, "svd", None, params)
     w = wit(E, "svd", ht, operand, params)
     if variant == "fix_signs" and ok:
@@ -463,7 +514,11 @@ def upper_triangular(ctx, op, blk, tol, where, w):
 def op_qr(E):
     import yastn
     ctx, rng = E.ctx, E.rng
-    ht, operand, left, right = E.split_operand()
+    pure = rng.random() < 0.08
+    if pure:
+        ht, operand, left, right = E.split_operand(rank=2, split=((0,), (1,)), fusion="none")
+    else:
+        ht, operand, left, right = E.split_operand()
     axes = F.axes_arg(rng, left, right)
     sQ = rng.choice((1, -1))
     Qaxis, Raxis = F.rand_axis(rng, len(left) + 1), F.rand_axis(rng, len(right) + 1)
@@ -473,10 +528,15 @@ def op_qr(E):
     if rng.random() < 0.1:
         sQ, Qaxis, Raxis = 1, -1, 0
         kw = {"axes": axes}
+    if pure:
+        sQ, Qaxis, Raxis = 1, -1, 0
+        kw = {}                      # qr(a): every optional argument omitted
+        ctx.count("pure_defaults:qr")
     params = {k: (v if k != "axes" else [list(left), list(right)]) for k, v in kw.items()}
     E.count_axis((Qaxis, -1), (Raxis, 0))
     ctx.count("sU_minus", int(sQ == -1))
     Q, R = operand.y.qr(**kw) if rng.random() < 0.3 else yastn.qr(operand.y, **kw)
+    E.count_call("qr", operand, ((Q, Qaxis), (R, Raxis)))
     w = wit(E, "qr", ht, operand, params)
     flatL, flatR = F.flat_axes(operand, left), F.flat_axes(operand, right)
     sec = F.Sectors(ht, flatL, flatR, sQ, ht.n)
@@ -538,12 +598,15 @@ def op_qr(E):
 
 # ------------------------------------------------------------------ eigh / eig
 
-def square_tensor(E, kind):
+def square_tensor(E, kind, k=None, scale=True):
     """Tensor over legs (L, conj L) of charge 0 with symmetric block support; 'herm' = b + b^H, 'psd' = b b^H, 'gen' = general."""
     rng = E.rng
-    k = rng.choice((1, 1, 2, 2, 3) if E.thorough else (1, 1, 2, 2))
+    k = k or rng.choice((1, 1, 2, 2, 3) if E.thorough else (1, 1, 2, 2))
     small = k >= 3
     L = [D.gen_leg(rng, E.sym, nsec=(1, 2) if small else (1, 3), dmax=2 if small else 3) for _ in range(k)]
+    if k >= 2 and rng.random() < 0.15:
+        L = [D.HLeg(E.sym, rng.choice((1, -1)), L[0].sectors) for _ in range(k)]     # identical sector structure on all pairs
+        E.uniform_legs = True
     legs = L + [l.conj() for l in L]
     dt = rng.choice(("float64", "complex128"))
     dens = rng.choice((1.0, 1.0, 0.7, 0.5))
@@ -557,7 +620,18 @@ def square_tensor(E, kind):
         x, y = b.blocks.get(key), oH.blocks.get(key)
         blocks[key] = (x + y) if (x is not None and y is not None) else (x if x is not None else y).copy()
     h = D.HTensor(E.sym, legs, G.zero(E.sym), blocks, dt)
+    c = F.draw_scale(rng) if scale else 1.0
+    if c != 1.0 and blocks:
+        h = F.scaled(h, c)
+        E.ctx.count("scaled_operands")
     return h, k
+
+
+def natural_matrix(operand, left, right):
+    """Rank-2 operand brought (by a lazy transpose if needed) to leg order (row, column), so that the default axes=(0, 1) apply."""
+    if (left, right) != ((0,), (1,)):
+        operand.y, operand.tops, operand.info["post"] = operand.y.transpose((1, 0)), operand.tops[::-1], "lazy"
+    return operand, (0,), (1,)
 
 
 def hide_pairs(E, h, k):
@@ -714,13 +788,18 @@ def op_eigh(E):
     ctx, rng = E.ctx, E.rng
     import random
     kind = rng.choice(("herm", "herm", "herm", "designed", "psd"))
-    h, k = square_tensor(E, "herm")
+    h, k = square_tensor(E, "herm", scale=False)
     hp, posL, posR = hide_pairs(E, h, k)
     state = rng.getstate()
     operand, left, right = paired_operand(E, hp, posL, posR, count=False, asym=True)
-    if kind != "herm" and hp.blocks:
+    c = F.draw_scale(rng)
+    if (kind != "herm" or c != 1.0) and hp.blocks:
         flatL, flatR = F.flat_axes(operand, left), F.flat_axes(operand, right)
-        hp = F.square_psd(hp, flatL, flatR) if kind == "psd" else F.redesign_eigh(rng, hp, flatL, flatR, False)
+        if kind != "herm":
+            hp = F.square_psd(hp, flatL, flatR) if kind == "psd" else F.redesign_eigh(rng, hp, flatL, flatR, False)
+        if c != 1.0:
+            hp = F.scaled(hp, c)          # after squaring / designing: the harness itself must not overflow
+            ctx.count("scaled_operands")
         E.rng = random.Random()
         E.rng.setstate(state)
         operand, left, right = paired_operand(E, hp, posL, posR, count=False, asym=True)
@@ -734,10 +813,16 @@ def op_eigh(E):
     if rng.random() < 0.1:
         sU, Uaxis = 1, -1
         kw = {"axes": axes, "which": which}
+    if rng.random() < 0.08:
+        # eigh(a, axes): every optional argument omitted.  The order of S is not judged then: the signature default is which='LR'
+        # while the docstring marks 'SR' as the default
+        sU, Uaxis, which = 1, -1, None
+        kw = {"axes": axes}
+        ctx.count("pure_defaults:eigh")
     params = {kk: (v if kk != "axes" else [list(left), list(right)]) for kk, v in kw.items()}
     E.count_axis((Uaxis, -1))
     ctx.count("sU_minus", int(sU == -1))
-    ctx.count("which:" + which)
+    ctx.count("which:" + str(which))
     method = rng.random() < 0.3
     res = call_square(ctx, operand, lambda: operand.y.eigh(**kw) if method else yastn.eigh(operand.y, **kw))
     if res is None:
@@ -745,6 +830,7 @@ def op_eigh(E):
         ctx.case(("eigh-refused", operand.sig()), False)
         return
     S, U = res
+    E.count_call("eigh", operand, ((U, Uaxis),))
     w = wit(E, "eigh", hp, operand, params)
     flatL, flatR = F.flat_axes(operand, left), F.flat_axes(operand, right)
     n0 = G.zero(E.sym)
@@ -779,7 +865,8 @@ def op_eigh(E):
 def op_eig(E):
     import yastn
     ctx, rng = E.ctx, E.rng
-    h, k = square_tensor(E, "gen")
+    pure = rng.random() < 0.08
+    h, k = square_tensor(E, "gen", k=1 if pure else None)
     if rng.random() < 0.2 and h.blocks:
         # non-normal input: diagonal similarity with factors 1/32, 1, 32 (eigenvector condition number up to ~1e3)
         h = F.similarity_scale(rng, h, k)
@@ -790,6 +877,12 @@ def op_eig(E):
     sU, nU, which = rng.choice((1, -1)), rng.choice((True, False)), rng.choice(("SR", "LR", "LM", "SM"))
     Uaxis, Vaxis = F.rand_axis(rng, len(left) + 1), F.rand_axis(rng, len(right) + 1)
     kw = {"axes": axes, "sU": sU, "nU": nU, "Uaxis": Uaxis, "Vaxis": Vaxis, "which": which}
+    if pure:
+        # eig(a) on a matrix: axes=(0, 1), sU=1, nU=True, Uaxis=-1, Vaxis=0, which='LM' are the documented defaults
+        operand, left, right = natural_matrix(operand, left, right)
+        sU, nU, Uaxis, Vaxis, which = 1, True, -1, 0, "LM"
+        kw = {}
+        ctx.count("pure_defaults:eig")
     params = {kk: (v if kk != "axes" else [list(left), list(right)]) for kk, v in kw.items()}
     E.count_axis((Uaxis, -1), (Vaxis, 0))
     ctx.count("sU_minus", int(sU == -1))
@@ -835,6 +928,7 @@ def op_eig(E):
         ctx.case(("eig-refused", operand.sig()), False)
         return
     U, S, V = res
+    E.count_call("eig", operand, ((U, Uaxis), (V, Vaxis)))
     check_usv(E, "eig", hp, operand, left, right, U, S, V, sU, nU, Uaxis, Vaxis, "eig", which, params)
     if rng.random() < 0.3:
         w = wit(E, "eig", hp, operand, params)
